@@ -715,7 +715,12 @@ impl CircuitBuilder {
     ) -> CachedPanicResult {
         let result = self.mux_uncached_panic(condition, t, f);
         let mut cache = HashMap::new();
-        for k in cache_t.keys().chain(cache_f.keys()) {
+        // Gates are emitted while merging the caches, so the keys must be visited in a fixed order
+        // (the iteration order of a `HashMap` differs between processes):
+        let mut keys: Vec<usize> = cache_t.keys().chain(cache_f.keys()).copied().collect();
+        keys.sort_unstable();
+        keys.dedup();
+        for k in keys.iter() {
             match (cache_t.get(k), cache_f.get(k)) {
                 (None, None) => {}
                 (None, Some(result)) | (Some(result), None) => {
